@@ -215,6 +215,9 @@ func judge(c Case, w *vkit.W) {
 	case "failing-formatter": // replay of phase B2
 		old := roman.Formatter
 		roman.Formatter = func(buf []byte, n roman.Number, f roman.Format) ([]byte, error) {
+			if n%2 == 0 { // a formatter that fails half-way has already written something
+				return append(buf, "partial "...), errors.New("formatter refused")
+			}
 			return nil, errors.New("formatter refused")
 		}
 		defer func() { roman.Formatter = old }()
@@ -371,6 +374,9 @@ func TestCheck(t *testing.T) {
 		old := roman.Formatter
 		defer func() { roman.Formatter = old }()
 		roman.Formatter = func(buf []byte, n roman.Number, f roman.Format) ([]byte, error) {
+			if n%2 == 0 { // a formatter that fails half-way has already written something
+				return append(buf, "partial "...), errors.New("formatter refused")
+			}
 			return nil, errors.New("formatter refused")
 		}
 		for def := 0; def < 128; def++ {
